@@ -327,8 +327,9 @@ def fn(case, ctx):
                 if not ok: continue
                 res = res[0]
             elif (mdl0.cls == "VolumeMesh" and mdl0.C and all(len(c) == 4 for c in mdl0.C)
-                  and set(key(f) for f in mdl0.F) <= set(key(c[:i] + c[i + 1:]) for c in mdl0.C for i in range(4))):
-                # (a merge of a volume with a surface has faces that bound no cell: its boundary is not defined)
+                  and set(key(f) for f in mdl0.F) <= set(key(c[:i] + c[i + 1:]) for c in mdl0.C for i in range(4))
+                  and set(mdl0.E) <= set(key(c[i], c[j]) for c in mdl0.C for i in range(4) for j in range(i))):
+                # (a merge of a volume with a surface / polyline has faces or edges that bound no cell: its boundary is not defined)
                 if op[2]:
                     ok, res = ctx.call("produce:boundary_of_volume", B.extract_boundary_of_volume, m0)
                     if not ok: continue
